@@ -39,7 +39,7 @@ class Res(wiring.Component):
 
 
 def n_cases(tier):
-    return 600 if tier == "quick" else 12000
+    return 4000 if tier == "quick" else 60000
 
 
 def gen_case(rng, tier, idx):
@@ -219,6 +219,12 @@ def run_case(case):
             if c == t:
                 return          # a map is never added to itself (outside the property's domain)
             child, cm = lives[c], models[c]
+            if cm.dw != mm.dw and any(it["kind"] == "win" for it in cm.items):
+                # A dense (or sparse) window of unequal width over a map that itself contains windows is outside
+                # the domain of C02/C03 (dense windows are claimed over leaf maps only): the recursive queries
+                # all_resources()/find_resource() assert on such trees. Not generated.
+                mon.count("skipped_unequal_width_window_over_non_leaf_map")
+                return
             before_child = snapshot(c)
             child_frozen_before = cm.frozen
             name = rng.choice([None, None, fresh_name(), fresh_name()])
